@@ -228,25 +228,117 @@ SEEDS3 = {
  "C20-6": ("C20", "iana/header.go: HeaderAlgorithmParameterPartyVOther = -23 (assigned -26, duplicate of PartyUOther)", "that constant"),
 }
 
+SEEDS4 = {
+ "C01-7": ("C01", "key/keyset.go KeySet.Signers / Verifiers skip keys whose own key_ops lack sign / verify",
+           "a key set holding a private signing key with key_ops [sign] only: COSE_Sign made with ks.Signers() finds no verifier in ks.Verifiers()"),
+ "C01-8": ("C01", "cose/encrypt0.go xorIV builds the nonce inside the key's Base IV when it has the full nonce length",
+           "two Partial-IV encryptions / an encryption then a decryption on one key object whose Base IV is nonce-sized"),
+ "C02-7": ("C02", "Signers / Verifiers / KeySet.Lookup compare kids with bytes.EqualFold",
+           "two keys whose kids differ only in letter case or in bytes that are not UTF-8; a signature is checked against the other key"),
+ "C02-8": ("C02", "key/ed25519 KeyFromPrivate keeps the caller's private-key buffer as d (pk[:32] instead of pk.Seed())",
+           "the Go private key is overwritten or wiped after the import and before the COSE key is used"),
+ "C03-7": ("C03", "cose/encrypt0.go xorIV XORs the Partial IV into the key's own Base IV (= C01-8)",
+           "a second Partial-IV operation on the same key object with a nonce-sized Base IV"),
+ "C03-8": ("C03", "Encrypt0/Encrypt UnmarshalCBOR rewrite an empty protected bucket to the zero-length string",
+           "a foreign COSE_Encrypt0 / COSE_Encrypt whose protected bucket is h'a0': the AAD differs from what the sender authenticated"),
+ "C04-7": ("C04", "cose/kdf_context.go PartyInfo.MarshalCBOR shortcut tests len(x)==0 instead of x==nil",
+           "a KDF context whose PartyInfo has present-but-empty identity / nonce / other"),
+ "C04-8": ("C04", "cose/sign.go Sig_structure cached per algorithm across the signatures of one COSE_Sign",
+           "a foreign COSE_Sign with two signatures of one algorithm whose protected buckets differ (other encoding / other members)"),
+ "C05-7": ("C05", "key/cosemap.go CoseMap.Set validates the label but stores it un-normalised",
+           "Headers.Set / Key.Set with a label of another Go integer kind (int64(1)): the default-header logic does not see it"),
+ "C05-8": ("C05", "key/key.go Key.Kid() recognises only ByteStr and []byte",
+           "a key whose kid is held in another named byte-slice type: the default kid header is missing"),
+ "C06-7": ("C06", "key/aesccm Encrypt / Decrypt use the tag and nonce size captured at construction",
+           "the key's alg moved between the CCM-16 and CCM-64 families after the Encryptor was made: nonce length != advertised algorithm's"),
+ "C06-8": ("C06", "cose/header.go Headers.MarshalCBOR encodes map[any]any(h) directly (bypasses the label-collision guard)",
+           "a caller's IV under uint64(5) / int64(5): the bucket is emitted with label 5 twice"),
+ "C07-7": ("C07", "cose/encrypt0.go xorIV loop ranges over the Base IV instead of the nonce",
+           "a key whose Base IV is longer than the nonce together with a Partial IV: index out of range"),
+ "C07-8": ("C07", "key/ecdh ToPublicKey chooses the point encoding by kty instead of by curve",
+           "a private key whose kty and crv disagree (EC2 with X25519, OKP with P-256): slice bounds panic / wrong members"),
+ "C08-7": ("C08", "cose/header.go HeadersFromBytes short-circuits on data[0]==0xa0",
+           "a protected bucket h'a0' followed by further octets is accepted"),
+ "C08-8": ("C08", "cose/mac.go MacMessage.Compute encodes a typed payload with cbor.Marshal (stock options)",
+           "a COSE_Mac whose typed payload is a Go map with >= 2 entries: not deterministically encoded"),
+ "C09-7": ("C09", "key/cosemap.go duplicate-label guard keyed on fmt.Sprint(label)",
+           "a map holding int 1 and text \"1\": refused although both round-trip"),
+ "C09-8": ("C09", "key/cbor.go decOpts gains MaxNestedLevels: 6",
+           "a header value nested three or more levels inside a recipient: encoded by the library, refused by its decoder"),
+ "C10-7": ("C10", "Lookup functions return nil for an empty kid",
+           "a COSE_Sign whose signature carries no kid, verified with a kid-less verifier"),
+ "C10-8": ("C10", "key/ecdsa keyToPublic checks the compressed x length before trimming leading zeros",
+           "a compressed EC2 key whose x carries extra leading zero octets"),
+ "C11-7": ("C11", "key/aesmac KeyFrom copies into a key-sized buffer and tests the copy count",
+           "aesmac.KeyFrom with an over-long key: silently truncated instead of refused"),
+ "C11-8": ("C11", "key/hmac CheckKey returns from inside the parameter loop when it meets key_ops",
+           "an HMAC key with key_ops and a wrong-size k / redundant member, depending on map iteration order"),
+ "C12-7": ("C12", "key/aesgcm KeyFrom truncates over-long keys", "aesgcm.KeyFrom with a key longer than the algorithm's size"),
+ "C12-8": ("C12", "key/key.go Key.Ops() appends to a pre-sized slice in the []any branch (zeros in front)",
+           "an AEAD key whose key_ops is a []any (any decoded key): CheckKey refuses operation 0"),
+ "C13-7": ("C13", "key/hkdf/hkdf_aes.go Read: remaining capacity computed as (256-int(counter))*16",
+           "a Read on a fresh reader asking for more than 255 blocks"),
+ "C13-8": ("C13", "CBC-MAC shared as aesmac.Sum through a 128-byte buffer whose tail is not cleared",
+           "HKDF-AES / AES-MAC input longer than 128 octets and not a multiple of 16"),
+ "C14-7": ("C14", "key/ecdh ToCompressedKey left-aligns a short x in a fixed-length buffer",
+           "a public EC2 key with a stripped x (leading zero removed)"),
+ "C14-8": ("C14", "key/ecdh CheckKey requires derive-key in a private key's key_ops",
+           "a private ECDH key with key_ops [derive bits] only"),
+ "C15-7": ("C15", "key/ecdh ToPublicKey reuses the coordinates embedded in the private key",
+           "a private EC2 key carrying full-length x / y that do not belong to d"),
+ "C15-8": ("C15", "key/ecdsa KeyToPrivate compares an embedded sign-bit y as a coordinate",
+           "a private EC2 key carrying x and a boolean y"),
+ "C16-7": ("C16", "key/ecdh ECDHer.ECDH converts the remote key with the unchecked keyToPublic",
+           "a remote public key with foreign key_ops / invalid members is used"),
+ "C16-8": ("C16", "key/ed25519 ToPublicKey copies every member but d when the private key carries x",
+           "a private Ed25519 key with x and key_ops [sign]: the derived public key keeps [sign]"),
+ "C17-7": ("C17", "key/interface_signing.go Verifiers.Lookup compares with bytes.EqualFold",
+           "verifier kids differing in letter case or in non-UTF-8 bytes, or a probe kid of that kind"),
+ "C17-8": ("C17", "key/ecdh ToCompressedKey compares and copies the raw kty map value",
+           "an OKP key whose kty is held as int64 / uint64 (any decoded key)"),
+ "C18-7": ("C18", "cwt/claims_map.go ClaimsMap.Has is Get(...) != nil",
+           "a claim present with a null value"),
+ "C18-8": ("C18", "key/cbor.go decOpts loses DupMapKeyEnforcedAPF",
+           "a claim set carrying exp / nbf twice: struct and map destinations keep different copies"),
+ "C19-7": ("C19", "key/key.go Key.Ops() stores the converted key_ops back into the key",
+           "a decoded key (key_ops as []any) shared by goroutines: concurrent map write"),
+ "C19-8": ("C19", "key/random.go short reads served from a package-level bufio.Reader",
+           "concurrent encryptions with library-chosen nonces (7, 12, 13 octets)"),
+ "C20-7": ("C20", "iana/claim.go EAT claims as 256 + iota across the registry gap at 261", "EAT claim constants after the gap"),
+ "C20-8": ("C20", "iana/algorithm.go SHA-384 / SHA-512 identifiers transposed", "AlgorithmSHA_384 / AlgorithmSHA_512"),
+}
 
-def main():
-    log = open(sys.argv[1]).read() if len(sys.argv) > 1 else ""
+
+def parse(path):
+    log = open(path).read() if path else ""
     results = {}
     cur = None
     for line in log.split("\n"):
         m = re.match(r"=== (C\d\d)/(\d) ::", line)
         if m:
-            cur = f"{m.group(1)}-{int(m.group(2)) + {'1': 0, '2': 2, '3': 4}[os.environ.get('SEED_ROUND', '1')]}"
+            cur = f"{m.group(1)}-{int(m.group(2)) + {'1': 0, '2': 2, '3': 4, '4': 6}[os.environ.get('SEED_ROUND', '1')]}"
             results.setdefault(cur, {})
             continue
         m = re.match(r"(C\d\d) exit=(\d+) (.*)", line)
         if m and cur:
             verdict = "caught" if m.group(2) != "0" and ("VIOLATION" in line or "KNOWN" in line) else "missed"
             results[cur][m.group(1)] = {"exit": int(m.group(2)), "verdict": verdict, "line": m.group(3)[:200]}
+    return results
+
+
+def main():
+    # argv[1]: log of the first run of the checks against the changes; argv[2] (optional): log of the run after the
+    # checks were strengthened (entries there replace the first ones in "checks_run"; the first verdict is kept apart)
+    first = parse(sys.argv[1]) if len(sys.argv) > 1 else {}
+    later = parse(sys.argv[2]) if len(sys.argv) > 2 else {}
+    results = {k: dict(v) for k, v in first.items()}
+    for k, v in later.items():
+        results.setdefault(k, {}).update(v)
     root = "/verif/seeded"
     rnd = os.environ.get("SEED_ROUND", "1")
     table, base, wt, off = {"1": (SEEDS, "/tmp/seed", "/tmp/wt", 0), "2": (SEEDS2, "/tmp/seed2", "/tmp/wt2", 2),
-                            "3": (SEEDS3, "/tmp/seed3", "/tmp/wt3", 4)}[rnd]
+                            "3": (SEEDS3, "/tmp/seed3", "/tmp/wt3", 4),
+                            "4": (SEEDS4, "/tmp/seed4", "/tmp/wt4", 6)}[rnd]
     for sid, (prop, what, needs) in sorted(table.items()):
         c, i = sid.split("-")
         i = str(int(i) - off)
@@ -275,6 +367,7 @@ def main():
                 "suite_with_patch": "ok", "demo_with_patch": "fail", "demo_without_patch": "pass",
             },
             "checks_run": results.get(sid, {}),
+            "checks_first_run": first.get(sid, {}),
             "apply": "git -C /repo apply <this dir>/patch.diff  (undo: git -C /repo checkout -- .)  or bin/seedtest <this dir>/patch.diff <Cxx>…",
             "note": "the demonstration's go.mod replaces github.com/ldclabs/cose by " + wt + "/" + c + "; point it at any checkout of /repo to re-run it",
         }
